@@ -1,5 +1,7 @@
 import Rustemo.Proofs.TLR
 import Rustemo.Props.Example
+import Rustemo.Proofs.LexTokRun
+import Rustemo.Proofs.LexTokExample
 /-!
 # C01 — a deterministic LR parser accepts exactly the language of its grammar
 
@@ -8,8 +10,9 @@ list the way rustemo's context-aware lexer feeds it when terminals cannot be con
 (distinct single-character recognizers): the next token is offered iff the current state has an
 action for it, and lexing is redone after every reduction.  The byte-level model `LR.parse` refines
 the same core (`Proofs/Refine.lean`); the remaining step "string lexer on such terminals = this lexing
-rule" is validated by running `tparse` next to `LR.parse` and the real parser on every generated input
-(it is not a theorem yet).
+rule" is the simulation theorem in the second half of this file (`C01_bytes_agree_with_tokens`,
+`C01_bytes_accept_exactly`; notes/Viable.md), and `tparse` is still run next to `LR.parse` and the real
+parser on every generated input.
 
 `Cert.c01` = structural + completeness (lookahead post-fixpoint incl. a verified FIRST/nullable
 post-fixpoint, reduce entries for every lookahead, every cell at most one action) + accept only on STOP.
@@ -98,5 +101,97 @@ theorem C01_deterministic_is_unambiguous (g : Grammar) (t : Table) (hcert : cert
 
 /-- non-vacuity: the hand-compiled table of `S: 'a' S | EMPTY` passes the whole certificate -/
 example : certC01 Example.g Example.t = true := by decide
+
+/-! ## From tokens to bytes: the string lexer on single-character terminals
+
+The theorems above are about `tparse` (token level).  What is diffed against the real `LRParser` is the
+byte-level model `LR.parse` (Model/LR.lean).  For the grammars C01 generates — every terminal a string
+recognizer of ONE ASCII character, pairwise distinct, no Layout rule — the two coincide:
+`Cert.singleCharLexer g t` (executable; run by the driver on every case as `cert singlechar`) and
+`CharEnv env` (default string lexer, recognizers = `charRecog`, i.e. `starts_with` of the terminal's
+character and STOP at the end of the input; whitespace skipping off, or on with no whitespace byte in
+the input) give a step-for-step simulation (`Proofs/LexTokSim.lean`): `nextTokenMain` in a state offers
+exactly the terminal whose character is the next byte iff that terminal has a non-empty cell in the
+state, else it reports the state's expected list at that byte — which is `tstep`'s lookup of the cell
+of the next token.  A byte that is no terminal's character is the token `g.nterms`, which no cell
+accepts. -/
+
+/-- **Byte level = token level**, for every fuel: Ok ⟷ accept (same fuel); `Err(expected ks)` at byte
+    offset `p` ⟷ token-level error with `|input| - p` tokens remaining in a state `s` whose
+    `sorted_terminals` are `ks` (one more unit of fuel: the byte-level loop lexes at the end of an
+    iteration); panic ⟷ panic; out of fuel ⟷ out of fuel. -/
+theorem C01_bytes_agree_with_tokens (env : Env) (hlex : Cert.singleCharLexer env.g env.t = true)
+    (henv : CharEnv env) (fuel : Nat) :
+    Agree env.t env.input.length (parse env false fuel).2
+      (tparse env.g env.t (tokensOf env.g env.input) fuel)
+      (tparse env.g env.t (tokensOf env.g env.input) (fuel + 1)) :=
+  parse_agree env henv (Cert.singleCharLexer_sound _ _ hlex) fuel
+
+/-- `LR.parse` returns Ok on the bytes iff `tparse` accepts their tokens (same fuel) -/
+theorem C01_bytes_ok_iff_tokens_accept (env : Env) (hlex : Cert.singleCharLexer env.g env.t = true)
+    (henv : CharEnv env) (fuel : Nat) :
+    (∃ ctx r, parse env false fuel = (ctx, .ok r)) ↔
+    ∃ tr, tparse env.g env.t (tokensOf env.g env.input) fuel = .accept tr :=
+  bytes_ok_iff env henv (Cert.singleCharLexer_sound _ _ hlex) fuel
+
+/-- a byte-level error is the token-level error: reported at byte offset `p.pos` = index of the
+    rejected token (`k = |input| - p.pos` tokens remain), expected list = `sorted_terminals` of the
+    state `s` in which `tparse` reports it -/
+theorem C01_bytes_error_is_token_error (env : Env) (hlex : Cert.singleCharLexer env.g env.t = true)
+    (henv : CharEnv env) (fuel : Nat) (ctx : Ctx) (e : PErr) (h : parse env false fuel = (ctx, .err e)) :
+    ∃ k s p, e = .expected p ((env.t.sorted s).map (·.1)) ∧ p.pos + k = env.input.length ∧
+      tparse env.g env.t (tokensOf env.g env.input) (fuel + 1) = .error k s :=
+  bytes_err_tokens env henv (Cert.singleCharLexer_sound _ _ hlex) fuel ctx e h
+
+/-- … and conversely -/
+theorem C01_token_error_is_bytes_error (env : Env) (hlex : Cert.singleCharLexer env.g env.t = true)
+    (henv : CharEnv env) (fuel k s : Nat)
+    (h : tparse env.g env.t (tokensOf env.g env.input) (fuel + 1) = .error k s) :
+    ∃ ctx p, parse env false fuel = (ctx, .err (.expected p ((env.t.sorted s).map (·.1)))) ∧
+      p.pos + k = env.input.length :=
+  tokens_err_bytes env henv (Cert.singleCharLexer_sound _ _ hlex) fuel k s h
+
+/-- **C01 at the byte level**: for a certified deterministic table of a single-character grammar the
+    byte-level parser returns Ok on `bs` iff `bs.map charToTerm` is a sentence of the grammar. -/
+theorem C01_bytes_accept_exactly (env : Env) (hcert : certC01 env.g env.t = true)
+    (hlex : Cert.singleCharLexer env.g env.t = true) (henv : CharEnv env) :
+    (∃ fuel ctx r, parse env false fuel = (ctx, .ok r)) ↔ Sentence env.g (tokensOf env.g env.input) := by
+  have hsc := Cert.singleCharLexer_sound _ _ hlex
+  rw [← C01_lr_accepts_exactly env.g env.t hcert _ (tokensOf_ne_zero hsc env.input)]
+  constructor
+  · intro ⟨fuel, ctx, r, h⟩
+    exact ⟨fuel, (C01_bytes_ok_iff_tokens_accept env hlex henv fuel).mp ⟨ctx, r, h⟩⟩
+  · intro ⟨fuel, h⟩
+    exact ⟨fuel, (C01_bytes_ok_iff_tokens_accept env hlex henv fuel).mpr h⟩
+
+/-- the same with every hypothesis an executable check (what the driver evaluates per case and input:
+    `cert c01`, `cert singlechar`, `charenv`) -/
+theorem C01_bytes_accept_exactly_checked (env : Env)
+    (h : (certC01 env.g env.t && Cert.singleCharLexer env.g env.t && charEnvOk env) = true) :
+    (∃ fuel ctx r, parse env false fuel = (ctx, .ok r)) ↔ Sentence env.g (tokensOf env.g env.input) := by
+  simp only [Bool.and_eq_true] at h
+  exact C01_bytes_accept_exactly env h.1.1 h.1.2 (charEnvOk_sound env h.2)
+
+/-! ### non-vacuity -/
+
+example : (certC01 Example3.g1 Example.t && Cert.singleCharLexer Example3.g1 Example.t &&
+    charEnvOk (Example3.envOf Example3.g1 Example.t [97, 97] true)) = true := by decide
+
+/-- both example tables, with their terminal records, pass the C01 and the lexer certificate -/
+example : certC01 Example3.g1 Example.t = true ∧ Cert.singleCharLexer Example3.g1 Example.t = true := by decide
+set_option maxRecDepth 8192 in
+example : certC01 Example3.g2 Example2.t = true ∧ Cert.singleCharLexer Example3.g2 Example2.t = true := by decide
+
+/-- the environments satisfy `CharEnv` (whitespace skipping off / on without whitespace bytes) -/
+example : CharEnv (Example3.envOf Example3.g2 Example2.t Example3.axc false) := ⟨fun _ _ _ _ => rfl, rfl, Or.inl rfl⟩
+example : CharEnv (Example3.envOf Example3.g2 Example2.t Example3.axc true) :=
+  ⟨fun _ _ _ _ => rfl, rfl, Or.inr (by decide)⟩
+
+/-- "axc" is accepted, "axd" is rejected at byte 2 expecting `c` (kind 3) after the reduction `A: x`,
+    "a?c" is rejected at byte 1 expecting `x` (kind 5) -/
+example : Example.isOk (parse (Example3.envOf Example3.g2 Example2.t Example3.axc false) false 50).2 = true ∧
+    Example3.errOf (parse (Example3.envOf Example3.g2 Example2.t Example3.axd false) false 50).2 = some (2, [3]) ∧
+    Example3.errOf (parse (Example3.envOf Example3.g2 Example2.t Example3.aqc false) false 50).2 = some (1, [5]) ∧
+    tokensOf Example3.g2 Example3.aqc = [1, 6, 3] := by decide
 
 end Rustemo.Props.C01
